@@ -151,7 +151,13 @@ fn check_cov(c: &CovCase, obs: &mut Obs) -> Result<(), String> {
             // finite index (below the limit): the cover must be the same based action of the crate's generators
             if own.len() * x.size <= 6000 {
                 let fws: Vec<FreeWord> = words.iter().map(|w| fw(w)).collect();
-                let y = if c.universal { DS::from_dsym(&finite_universal_cover(&px)) } else { DS::from_dsym(&subgroup_cover(&px, &fws)) };
+                // the reference enumeration finished below 3000 rows: running into the crate's limit of
+                // 100 000 rows here is not "too hard" but an enumeration that does not converge
+                let y = match guarded(|| if c.universal { DS::from_dsym(&finite_universal_cover(&px)) } else { DS::from_dsym(&subgroup_cover(&px, &fws)) }) {
+                    Ok(y) => y,
+                    Err(m) if m.contains("Reached coset table limit") => return Err(format!("{} gives up at the coset table limit of 100 000 rows although the subgroup has index {} (reference enumeration below 3000 rows)", if c.universal { "finite_universal_cover".to_string() } else { format!("subgroup_cover({:?})", words) }, own.len())),
+                    Err(m) => return Err(format!("panic: {}", m)),
+                };
                 let what = if c.universal { "finite_universal_cover".to_string() } else { format!("subgroup_cover({:?})", words) };
                 let k = check_cover(x, &y, &what)?;
                 ensure!(k == own.len(), "{}: {} sheets, but the subgroup has index {} (reference Todd-Coxeter over the returned presentation)", what, k, own.len());
